@@ -1310,7 +1310,7 @@ def run(ctx: core.Ctx):
                        "cases_with_this_failure": sum(1 for x in concrete if x[1] == failure),
                        "table_rows_of_class": [[x["method"], x["attr"], x["kind"]] for x in table.by_cls.get(cls, [])]},
                       kind="concrete", match_info={"failure": failure.split(" (")[0], "cause": failure.split(" (", 1)[1][:-1] if " (" in failure else ""})
-    if not concrete:
+    if not ctx.violations:  # no NEW concrete violation (none at all, or only ones a registered known finding describes)
         if broken:
             c, w = broken[0]
             ctx.violation("correspondence generated write table / Creators model <-> real creator objects no longer checks",
